@@ -127,13 +127,16 @@ func ruleClosed(c *Ctx) {
 	c.floor(R, 10)
 	p := c.P
 	p.computeNoReturn()
-	guardFn := c.need(R, "lua", "errorIfFileIsClosed")
-	if guardFn == nil {
+	// the guard helper may have been inlined into its callers: the rule then reads the test in place (below,
+	// "raising test of .closed")
+	guardFn := p.Fn("lua", "errorIfFileIsClosed")
+	closedF := p.Field("lua", "lFile", "closed")
+	if closedF == nil {
+		c.und(R, "anchor:lFile.closed", "-", "field not found")
 		return
 	}
-	closedF := p.Field("lua", "lFile", "closed")
 	// errorIfFileIsClosed itself: raises when .closed
-	{
+	if guardFn != nil {
 		g := p.G(guardFn)
 		okg := false
 		allInstrs(guardFn, func(in ssa.Instruction) {
@@ -188,7 +191,7 @@ func ruleClosed(c *Ctx) {
 			if okd || !g.Live(in) {
 				return
 			}
-			if isCallTo(in, guardFn) {
+			if guardFn != nil && isCallTo(in, guardFn) {
 				args := in.(*ssa.Call).Call.Args
 				if len(args) == 2 && fileRoot(args[1]) == root && g.Dominates(in, t.In) {
 					okd = true
